@@ -578,13 +578,24 @@ def afb2d_nonsep(x, filts, mode='zero'):
         if x.shape[3] % 2 == 1:
             x = torch.cat((x, x[:,:,:,-1:]), dim=3)
             Nx += 1
+        # The rolls and folds below wrap around only once, so an image
+        # smaller than the filter is first tiled to at least the filter size
+        Ny_out, Nx_out = Ny//2, Nx//2
+        if Ny < Ly:
+            reps = -(-Ly // Ny)
+            x = torch.cat([x] * reps, dim=2)
+            Ny *= reps
+        if Nx < Lx:
+            reps = -(-Lx // Nx)
+            x = torch.cat([x] * reps, dim=3)
+            Nx *= reps
         pad = (Ly-1, Lx-1)
         stride = (2, 2)
         x = roll(roll(x, -Ly//2, dim=2), -Lx//2, dim=3)
         y = F.conv2d(x, f, padding=pad, stride=stride, groups=C)
         y[:,:,:Ly//2] += y[:,:,Ny//2:Ny//2+Ly//2]
         y[:,:,:,:Lx//2] += y[:,:,:,Nx//2:Nx//2+Lx//2]
-        y = y[:,:,:Ny//2, :Nx//2]
+        y = y[:,:,:Ny_out, :Nx_out]
     elif mode == 'zero' or mode == 'symmetric' or mode == 'reflect':
         # Calculate the pad size
         out1 = pywt.dwt_coeff_len(Ny, Ly, mode=mode)
@@ -800,11 +811,23 @@ def sfb2d_nonsep(coeffs, filts, mode='zero'):
 
     x = coeffs.reshape(coeffs.shape[0], -1, coeffs.shape[-2], coeffs.shape[-1])
     if mode == 'periodization' or mode == 'per':
+        # The folds and rolls below wrap around only once, so coefficients of
+        # an image smaller than the filter are first tiled
+        Ny_out, Nx_out = 2*Ny, 2*Nx
+        if 2*Ny < Ly:
+            reps = -(-Ly // (2*Ny))
+            x = torch.cat([x] * reps, dim=2)
+            Ny *= reps
+        if 2*Nx < Lx:
+            reps = -(-Lx // (2*Nx))
+            x = torch.cat([x] * reps, dim=3)
+            Nx *= reps
         ll = F.conv_transpose2d(x, f, groups=C, stride=2)
         ll[:,:,:Ly-2] += ll[:,:,2*Ny:2*Ny+Ly-2]
         ll[:,:,:,:Lx-2] += ll[:,:,:,2*Nx:2*Nx+Lx-2]
         ll = ll[:,:,:2*Ny,:2*Nx]
         ll = roll(roll(ll, 1-Ly//2, dim=2), 1-Lx//2, dim=3)
+        ll = ll[:,:,:Ny_out,:Nx_out]
     elif mode == 'symmetric' or mode == 'zero' or mode == 'reflect' or \
             mode == 'periodic':
         pad = (Ly-2, Lx-2)
